@@ -83,8 +83,8 @@ CLAIMED.update({
             "the latest execution; retrying is entered only by the internal retry event from a completed status; a re-offered "
             "retry carries the retry delay; over every history of API calls from the empty history one record enters retrying "
             "at most max(count,0) times (at most count+1 executions per visit), with no protocol hypothesis; the re-entrant "
-            "update_task_state call terminates (the model's recursion bound is never reached over composed graphs). Tested, "
-            "not proved: no transition/publish fires for a retried attempt.",
+            "update_task_state call terminates (the model's recursion bound is never reached over composed graphs); no "
+            "transition, publish or failure handling fires for an attempt that is retried (the call decides nothing).",
             "The engine's own tally can run ahead of the retries (an ignored event on a retrying record is counted; shown by "
             "Examples) -- this costs retries and never adds an execution, so it is not a violation of the bound."),
 })
